@@ -39,6 +39,7 @@ def lowered():
         text = text.replace("cnp.import_array()", "pass")
         mod = types.ModuleType("vf_lowered_criteria")
         mod.__dict__["memcpy"] = _memcpy
+        mod.__dict__["memset"] = _memset
         exec(compile(text, "<lowered criteria>", "exec"), mod.__dict__)
         mod.__text__ = text
         _LOWERED = mod
@@ -48,6 +49,14 @@ def lowered():
 def _memcpy(dest, src, nbytes):
     for i in range(int(nbytes) // 8):
         dest[i] = src[i]
+
+
+def _memset(dest, value, nbytes):
+    """libc memset on a float64 buffer: only the all-zero fill has a defined float meaning"""
+    if value != 0:
+        raise cy2py.Cy2PyError("memset with a non-zero byte on a float64 buffer")
+    for i in range(int(nbytes) // 8):
+        dest[i] = 0
 
 
 def compiled(kind):
